@@ -357,14 +357,16 @@ fn run_case(sh: &mut Shard, case: u64, rng: &mut Rng, threads: bool) {
     }
     let seed = rng.u64();
     let data_seed = rng.u64();
-    let slots = *rng.pick(&[8usize, 16, 16]);
+    // 4 = "just enough" (the storage must be a power of two): every task has at most one frame in
+    // flight (single-frame images), so at most 3 tasks keep fewer frames in flight than the storage holds
+    let slots = if nt <= 3 { *rng.pick(&[4usize, 8, 16, 16]) } else { *rng.pick(&[8usize, 16, 16]) };
     let latency = *rng.pick(&[(0u64, 0u64), (0, 50), (0, 500), (100, 500)]);
     let scenario = json!({"case": case, "devices": n, "groups": k, "slots": slots, "latency_us": [latency.0, latency.1], "tasks": tasks.iter().map(|t| format!("{t:?}")).collect::<Vec<_>>()});
     sh.case(Some(fnv_mix(fnv(scenario.to_string().as_bytes()), case)));
     sh.count(&format!("tasks.{nt}"));
     sh.count(&format!("slots.{slots}"));
     let run = |mode: Mode| {
-        let r = std::panic::catch_unwind(std::panic::AssertUnwindSafe(|| if slots == 8 { run_scenario::<8>(&descs, k, &tasks, seed, data_seed, mode, latency) } else { run_scenario::<16>(&descs, k, &tasks, seed, data_seed, mode, latency) }));
+        let r = std::panic::catch_unwind(std::panic::AssertUnwindSafe(|| if slots == 4 { run_scenario::<4>(&descs, k, &tasks, seed, data_seed, mode, latency) } else if slots == 8 { run_scenario::<8>(&descs, k, &tasks, seed, data_seed, mode, latency) } else { run_scenario::<16>(&descs, k, &tasks, seed, data_seed, mode, latency) }));
         match r {
             Err(p) => Err(format!("PANIC:{}", p.downcast_ref::<String>().cloned().or_else(|| p.downcast_ref::<&str>().map(|s| s.to_string())).unwrap_or_default())),
             Ok(x) => x,
